@@ -18,6 +18,18 @@ func canonSession(t string) string {
 	return t
 }
 
+// canonSessionTerm: the same on the term (symbols renamed, then re-normalised, so that argument order does
+// not depend on the local's name or on a leading address-of left by helper expansion).
+func canonSessionTerm(t *term) string {
+	re := regexp.MustCompile(`^&?(local:[A-Za-z0-9_]+|[a-z][A-Za-z0-9_]*)\.(` + regexp.QuoteMeta(curSess.from) + `|` + regexp.QuoteMeta(curSess.to) + `)$`)
+	return mapSyms(t, func(n string) string {
+		if m := re.FindStringSubmatch(n); m != nil {
+			return "QR." + m[2]
+		}
+		return n
+	}).String()
+}
+
 func checkC09(p *Program, r *Report) {
 	r.Explanation = "Decided structural necessary conditions of exact neighbours, for every trie and query: (map) Search returns, position by position, the leaf value of the left / equal / right id of the three-way descent exactly when that id is not -1 and nil otherwise — no id is dropped, swapped or looked up through another function; (extremes) the bounds the descent uses to accept a left or right neighbour candidate are, as normalised terms over (Inners, from, to) of the session, the very child ids the extreme-leaf walks follow: first child = rank(Inners, from) + 1 as in the left-most walk, last child = rank(Inners, to-1) + bit(to-1) as in the right-most walk — one definition of a node's first and last child; (route) the neighbour ids are finished by the right-most walk on the left candidate and the left-most walk on the right candidate."
 	r.NotCovered = "Which candidate is chosen at each level, the comparisons with stored prefixes and tails, and everything that depends on rank values and key bytes at run time — i.e. most of the property. Filter-mode false positives on absent keys are by design."
@@ -134,7 +146,7 @@ func checkC09(p *Program, r *Report) {
 					// one walker with a direction parameter: the fed-back value merges the two child choices
 					if inner, ok := ed.(*ssa.Phi); ok && len(inner.Edges) == 2 {
 						for k, alt := range inner.Edges {
-							t := canonSession(e.eval(alt).String())
+							t := canonSessionTerm(e.eval(alt))
 							if !strings.Contains(t, "Slim.Inners") {
 								continue
 							}
@@ -166,7 +178,7 @@ func checkC09(p *Program, r *Report) {
 						}
 						continue
 					}
-					t := canonSession(e.eval(ed).String())
+					t := canonSessionTerm(e.eval(ed))
 					if strings.Contains(t, "Slim.Inners") {
 						// both branches of "if toRight" may jump straight back to the header: the direction
 						// is read off the branch that dominates this back edge's source
@@ -222,7 +234,7 @@ func checkC09(p *Program, r *Report) {
 			if !ok {
 				return
 			}
-			x, y := canonSession(e.eval(bo.X).String()), canonSession(e.eval(bo.Y).String())
+			x, y := canonSessionTerm(e.eval(bo.X)), canonSessionTerm(e.eval(bo.Y))
 			switch bo.Op {
 			case token.GEQ:
 				if strings.Contains(y, "Slim.Inners") {
